@@ -380,6 +380,69 @@ vbi_send_event(vbi_decoder *vbi, vbi_event *ev)
 	pthread_mutex_unlock(&vbi->event_mutex);
 }
 
+#ifdef ZVBI_VERIF
+
+#include <sched.h>
+
+/* Verification hook H2, see vbi.h. */
+
+unsigned int		zvbi_verif_yield_seed;
+unsigned long		zvbi_verif_yield_count[8];
+
+static pthread_once_t	verif_yield_once = PTHREAD_ONCE_INIT;
+static unsigned int	verif_yield_env;
+
+static void
+verif_yield_init(void)
+{
+	const char *s = getenv("ZVBI_VERIF_YIELD");
+
+	if (s)
+		verif_yield_env = (unsigned int) strtoul(s, NULL, 0);
+}
+
+void
+_vbi_verif_yield(unsigned int site)
+{
+	static __thread unsigned int state;
+	unsigned int seed, r;
+
+	seed = zvbi_verif_yield_seed;
+
+	if (0 == seed) {
+		pthread_once(&verif_yield_once, verif_yield_init);
+
+		if (0 == (seed = verif_yield_env))
+			return;
+	}
+
+	if (0 == state)
+		state = (seed * 2654435761u) ^ (site * 40503u) ^ 0x9E3779B9u;
+
+	/* xorshift32 */
+	r = state;
+	r ^= r << 13;
+	r ^= r >> 17;
+	r ^= r << 5;
+	state = r ? r : 1;
+
+	__atomic_fetch_add(&zvbi_verif_yield_count[site & 7], 1,
+			   __ATOMIC_RELAXED);
+
+	switch (r & 7) {
+	case 0: case 1: case 2: case 3:
+		break;			/* no delay */
+	case 4: case 5:
+		sched_yield();
+		break;
+	default:
+		usleep((r >> 8) % 201);	/* 0 ... 200 us */
+		break;
+	}
+}
+
+#endif /* ZVBI_VERIF */
+
 /*
  *  VBI Decoder
  */
@@ -438,6 +501,8 @@ vbi_decode(vbi_decoder *vbi, vbi_sliced *sliced, int lines, double time)
 
 	  pthread_mutex_unlock(&vbi->chswcd_mutex);
 
+	  VERIF_YIELD(2);
+
 	  if (0)
 		  fprintf(stderr, "vbi frame/s dropped at %f, D=%f\n",
 			  time, time - vbi->time);
@@ -459,9 +524,12 @@ vbi_decode(vbi_decoder *vbi, vbi_sliced *sliced, int lines, double time)
 		
 		if (vbi->chswcd > 0 && --vbi->chswcd == 0) {
 			pthread_mutex_unlock(&vbi->chswcd_mutex);
+			VERIF_YIELD(3);
 			vbi_chsw_reset(vbi, 0);
 		} else
 			pthread_mutex_unlock(&vbi->chswcd_mutex);
+
+		VERIF_YIELD(4);
 	}
 
 	if (time > vbi->time)
